@@ -851,7 +851,18 @@ func shorterThan(eng *bounds.Engine, v ssa.Value, o *ssa.Phi, strict bool, b *ss
 	switch x := v.(type) {
 	case *ssa.Phi:
 		visiting[x] = true
+		// inputs that the facts at the point of use rule out (the values an expanded helper returned
+		// together with a non-nil error, behind "if err != nil { return }") do not count
+		feasible := map[int]bool{}
+		if b != nil && x.Block().Dominates(b) {
+			for _, k := range kit.FeasibleEdges(x, kit.FactsAt(b)) {
+				feasible[k] = true
+			}
+		}
 		for k, ed := range x.Edges {
+			if len(feasible) > 0 && !feasible[k] {
+				continue
+			}
 			pred := x.Block().Preds[k]
 			if !shorterThan(eng, ed, o, strict, pred, len(pred.Instrs), visiting) {
 				return false
